@@ -15,6 +15,7 @@ import (
 	"go/ast"
 	"go/types"
 	"regexp"
+	"sort"
 	"strings"
 )
 
@@ -62,11 +63,11 @@ func stmtsRenamed(fd *ast.FuncDecl, recv string, canon []string, from int) strin
 }
 
 var (
-	reReadPacket = regexp.MustCompile(`^var (\w+) fixedHeader ; if _, err := (\w+)\.ReadFrom\(r\); err != nil \{ return nil, fmt\.Errorf\("[^"%]*%w[^"%]*", err\) \} ; return (\w+)\.ReadRemaining\(r\)$`)
-	reHeaderFrom = regexp.MustCompile(`^(\w+), err := f\.fixed\.ReadFrom\(r\) ; if err != nil \{ return (\w+), err \} ; (\w+), err := f\.remainingLen\.ReadFrom\(r\) ; return (\w+) \+ (\w+), err$`)
-	reBitsFrom   = regexp.MustCompile(`^data := make\(\[\]byte, (\d+)\) ; if n, err := io\.ReadFull\(r, data\); err != nil \{ return int64\(n\), err \} ; return (\d+), v\.UnmarshalBinary\(data\)$`)
+	reReadPacket = regexp.MustCompile(`^var (\w+) fixedHeader ; if _, err := (\w+)\.ReadFrom\(r\); err (?:!=|==) nil \{ return nil, fmt\.Errorf\("[^"%]*%w[^"%]*", err\) \} ; return (\w+)\.ReadRemaining\(r\)$`)
+	reHeaderFrom = regexp.MustCompile(`^(\w+), err := f\.fixed\.ReadFrom\(r\) ; if err (?:!=|==) nil \{ return (\w+), err \} ; (\w+), err := f\.remainingLen\.ReadFrom\(r\) ; return (\w+) \+ (\w+), err$`)
+	reBitsFrom   = regexp.MustCompile(`^data := make\(\[\]byte, (\d+)\) ; if n, err := io\.ReadFull\(r, data\); err (?:!=|==) nil \{ return int64\(n\), err \} ; return (\d+), v\.UnmarshalBinary\(data\)$`)
 	reVbFrom     = regexp.MustCompile(`^var (\w+) uint = 1 ; var (\w+) uint ; data := make\(\[\]byte, (\d+)\) ; var i int64 ; ` +
-		`for \{ if _, err := io\.ReadFull\(r, data\); err != nil \{ return i, err \} i\+\+ (\w+) := data\[0\] (\w+) \+= uint\((\w+)\) & uint\((\d+)\) \* (\w+) ` +
+		`for \{ if _, err := io\.ReadFull\(r, data\); err (?:!=|==) nil \{ return i, err \} i\+\+ (\w+) := data\[0\] (\w+) \+= uint\((\w+)\) & uint\((\d+)\) \* (\w+) ` +
 		`if (\w+) (>|>=) ([\d\*]+) \{ return i, unmarshalErr\(v, "", "size exceeded"\) \} if (\w+)&(\d+) (?:==|!=|<=|>=|<|>) 0 \{ break \} (\w+) = (\w+) \* (\d+) \} ; ` +
 		`\*v = vbint\((\w+)\) ; return i, nil$`)
 	reVbFromOps = regexp.MustCompile(`if \w+&\d+ (==|!=|<=|>=|<|>) 0 \{ break \}`)
@@ -88,13 +89,18 @@ func streamGen() (string, []string) {
 		}
 	}
 	var bad []string
+	// every `err != nil` of the five functions, as spelled (the patterns accept `==` too, so that the flip is rendered
+	// as a fact the tie refutes instead of making the function unrecognisable)
+	errTests := map[string]bool{}
 	body := func(name, recv string, from int) (string, bool) {
 		fd := funcs[name]
 		if fd == nil {
 			bad = append(bad, name)
 			return "", false
 		}
-		return stmtsRenamed(fd, recv, []string{"r"}, from), true
+		b := stmtsRenamed(fd, recv, []string{"r"}, from)
+		errTests[strings.TrimPrefix(name, ".")] = !strings.Contains(b, "err == nil")
+		return b, true
 	}
 	k1, vbK, mask, op, limit, cont, step := "1", "1", "127", ">", "128*128*128", "128", "128"
 	zop, zk := "=", "0"
@@ -143,6 +149,7 @@ func streamGen() (string, []string) {
 			}
 		}
 		b := stmtsRenamed(fd, "f", []string{"r"}, from)
+		errTests["fixedHeader.ReadRemaining"] = !strings.Contains(b, "err == nil")
 		head := stmtsRenamed(fd, "f", []string{"r"}, 0)
 		if m := reRemaining.FindStringSubmatch(b); m != nil && from == 2 && strings.HasPrefix(head, "var p ControlPacket ; switch byte(f.fixed) & 0b1111_0000 {") {
 			zop, zk = map[string]string{"==": "=", "<=": "≤"}[m[1]], m[2]
@@ -198,6 +205,19 @@ def readPacket (r : Reader) : RP × Reader :=
 	} else {
 		sb.WriteString("def readPacket (r : Reader) : RP × Reader := (.hang, r)\n\n")
 	}
+	var names []string
+	for k := range errTests {
+		names = append(names, k)
+	}
+	sort.Strings(names)
+	sb.WriteString("/-- per function: every error test is spelled `err != nil` -/\ndef streamErrTests : List (String × Bool) := [")
+	for i, k := range names {
+		if i > 0 {
+			sb.WriteString(", ")
+		}
+		fmt.Fprintf(&sb, "(%q, %v)", k, errTests[k])
+	}
+	sb.WriteString("]\n\n")
 	fmt.Fprintf(&sb, "def untranslatedStream : List String := [%s]\n\nend Mq.Gen\n", quoteAll(bad))
 	return sb.String(), bad
 }
